@@ -126,7 +126,7 @@ func crashWindow(lines []crashkit.Line) (pmin, pmax, acked int, inflight bool) {
 }
 
 func famCrash(c *mon.Ctx) {
-	c.Family("crash", nCases(c, 14, 42), func(k *mon.Case) {
+	c.Family("crash", nCases(c, 14, 20), func(k *mon.Case) {
 		ps := k.Rand.Uint64()
 		cf := crashCfg(k.Rand)
 		k.Desc(map[string]any{"program_seed": ps, "cfg": cf})
